@@ -509,6 +509,9 @@ def _report(rec, mdl, mode, cid, cls, gap, sig, single_ok, detail):
         _violation(rec, D11_KEY, cid, detail)
         return "d11:" + cls
     rec.branch("protocol:ordinary-violation")
-    key = "%s|%s|%s|%s" % (mdl.name, mode if not (mode == "batched" and single_ok) else "batched-only", cls, sig)
+    # one defect -> one key: mode only distinguishes failures that exist in the compiled batch alone; the stretch class
+    # and the side (QF / FQ) are in the detail, not in the key
+    key = "%s|%s|%s" % (mdl.name, "batched-only" if (mode == "batched" and single_ok) else "any-mode",
+                        "energy-not-invariant-under-rotation" if sig.startswith("not-") else sig)
     _violation(rec, key, cid, detail)
     return "fail:" + sig
